@@ -34,7 +34,7 @@ type recTT struct {
 	step   int
 	stored map[board.ZobristHash]ttEntry
 	// verification control
-	verify     func() bool // decides whether this write is verified (sampling); nil = all
+	verify     func() bool  // decides whether this write is verified (sampling); nil = all
 	onlyAfter  *countingCtx // if set: only writes after the context fired are verified (C12)
 	writes     int
 	verified   int
